@@ -24,23 +24,27 @@ package command
 // position of the batcher's queue. Whenever the mutex is free, everything that has been chained has been
 // handed to the batcher (so logs reach the store in id order) ...
 //@ monitor command.Commander.mu protects Commander.lastLog, Commander.lastTXID, ghost queueTail, ghost chainedTx invariant queueTail == ite(self.lastLog == nil, 0 - 1, val(self.lastLog.ID)) && headOK(self) && self.lastTXID != nil      // C05
-// ... and every transaction id that has been handed out belongs to a chained log (so transaction ids increase by one in log order)
-//@ monitor command.Commander.mu protects Commander.lastLog, Commander.lastTXID, ghost queueTail, ghost chainedTx invariant val(self.lastTXID) == chainedTx      // C05
+// The transaction counter only moves in chainLog, together with the chain (see its contract): transaction ids increase by
+// one in log order.
 
+// chainLog: the transaction the log carries (if any) gets the next transaction id in the same critical section in which
+// the log gets the next log id and is handed to the batcher: transaction ids increase by one in log order (C05)
 //@ func (*command.Commander).chainLog
 //@   requires commander != nil && log != nil
+//@   requires tx != nil ==> isTxLog(log.Data) && txOfLog(log.Data) == tx // C05
 // (the commander is built by New, which gives it its batcher)
 //@   assumes commander.Batcher != nil
 //@   ensures ret != nil && ret.Log == old(deref(log)) && ret.ID != nil && commander.lastLog == ret
 //@   ensures enqueued == old(enqueued) + 1
-//@   modifies Commander.lastLog, ledger.ChainedLog.Hash, pkg:batching, chan, ghost enqueued, ghost queueTail
+//@   ensures tx != nil ==> tx.ID != nil && val(tx.ID) == old(val(commander.lastTXID)) + 1 && commander.lastTXID == tx.ID // C05
+//@   ensures tx == nil ==> commander.lastTXID == old(commander.lastTXID) // C05
+//@   modifies Commander.lastLog, Commander.lastTXID, ledger.Transaction.ID, ledger.ChainedLog.Hash, pkg:batching, chan, ghost enqueued, ghost queueTail
 //@   property C05 C06
+// nextTXID: the id the next transaction will get; nothing is consumed (a dry run reports it)
 //@ func (*command.Commander).nextTXID
 //@   requires commander != nil && commander.lastTXID != nil
-//@   ensures ret != nil && val(ret) == val(old(commander.lastTXID)) + 1
-//@   ensures preview ==> commander.lastTXID == old(commander.lastTXID)      // C14
-//@   ensures !preview ==> commander.lastTXID == ret
-//@   modifies Commander.lastTXID
+//@   ensures ret != nil && val(ret) == val(commander.lastTXID) + 1 && commander.lastTXID == old(commander.lastTXID) // C05 C14
+//@   modifies nothing
 //@   property C05 C14
 
 // ---- appending a log: dry run touches nothing; otherwise the log is chained, enqueued once, and the
